@@ -1194,9 +1194,12 @@ impl CraneliftCompiler {
     fn prepare_jump_blocks(&mut self, bcx: &mut FunctionBuilder, insn_ptr: usize, insn: &Insn) {
         let insn_ptr = insn_ptr as u32;
         let next_pc: u32 = insn_ptr + 1;
-        let target_pc: u32 = (insn_ptr as isize + insn.off as isize + 1)
-            .try_into()
-            .unwrap();
+        // EXIT and TAIL_CALL do not jump: their offset field is meaningless (and may be negative).
+        let off = match insn.opc {
+            ebpf::EXIT | ebpf::TAIL_CALL => 0,
+            _ => insn.off as isize,
+        };
+        let target_pc: u32 = (insn_ptr as isize + off + 1).try_into().unwrap();
 
         // This is the fallthrough block
         let fallthrough_block = *self
